@@ -52,7 +52,7 @@ RULE   = ('(a) gated scheduler histories as C01; non-trivial = at least two '
 ASSUMPTIONS = ['the executor gives resources back by publishing the task on '
                'AGENT_UNSCHEDULE_PUBSUB']
 SHARDS   = {'quick': 16, 'thorough': 16}
-TIMEOUT  = {'quick': 300, 'thorough': 3000}
+TIMEOUT  = {'quick': 600, 'thorough': 5400}
 REQUIRED = {'quiescent_points': 1000, 'placed_tasks_checked': 300,
             'nodelist_restorations': 300, 'set:endings': 5}
 
